@@ -152,33 +152,36 @@ def run_coq(bdir, path, timeout=1500):
     return rc, out, dt
 
 
-def main():
-    t0 = time.time()
-    api = A.Api(COQ_MODULES)
-    recs = A.explicit_calls(api) + A.harvest(api, print)
+class Ctx:
+    pass
+
+
+def build():
+    """implementation side (fast, deterministic for a given /repo): for every function of the translated
+    modules one documented call, and for every (parameter, constructor) not documented as accepted the
+    implementation's answer: ok (TypeError/ValueError) / accepted (a proper value) / non-value / <exception>"""
+    cx = Ctx()
+    cx.api = api = A.Api(COQ_MODULES)
+    recs = A.explicit_calls(api) + A.harvest(api)
     obs = A.observed_kinds(api, recs)
-    mods = K.mods(*COQ_MODULES)
-    bdir, report, ok, msg = K.generate(mods, print)
+    cx.mods = mods = K.mods(*COQ_MODULES)
+    cx.bdir, cx.report, ok, msg = K.generate(mods, lambda s: None)
     assert ok, msg
-    os.makedirs(os.path.join(bdir, "proofs", "C20"), exist_ok=True)
-    rc, out, _ = run_coq(bdir, _copy(bdir, "C20_defs.v"))
-    assert rc == 0, out
     tr = T.Translator(K.REPO, mods)
     enc = C.Encoder(tr)
-    sigs = parse_sigs(bdir, mods)
-    term = Term(api, enc, tr, sigs)
+    sigs = parse_sigs(cx.bdir, mods)
+    cx.term = term = Term(api, enc, tr, sigs)
+    shapes = {k: set(v) for k, v in json.load(open(os.path.join(VERIF, "vlib", "props", "C20_shapes.json"))).items()} \
+        if os.path.exists(os.path.join(VERIF, "vlib", "props", "C20_shapes.json")) else None
     by = {}
     for c in recs: by.setdefault(c.key, []).append(c)
-
-    plan = {}      # module -> list of dict(fn, base, probes[(pname, var, kind, implres)], shape)
-    notes = {"no_model": [], "no_base": [], "omitted": []}
-    required = []
+    cx.plan, cx.no_model, cx.no_base, cx.required = {}, [], [], []
     for key in sorted(api.fns):
         fn = api.fns[key]
         rk = fn.name if fn.cls is None else "%s.%s" % (fn.cls, fn.name)
-        if report.get(rk) == "ok": required.append(rk)
+        if cx.report.get(rk) == "ok": cx.required.append(rk)
         if coq_name(fn) not in sigs:
-            notes["no_model"].append(key); continue
+            cx.no_model.append(key); continue
         base = None
         for c in by.get(key, []):
             try:
@@ -189,42 +192,61 @@ def main():
             if o.setup_exc is None and o.exc is None:
                 base = (c, o); break
         if base is None:
-            notes["no_base"].append(key); continue
+            cx.no_base.append(key); continue
         c, o = base
-        entry = {"fn": fn, "base": c, "shape": A.shape(o.result) if fn.kind != "ctor" else fn.cls, "probes": {}}
+        entry = {"fn": fn, "base": c, "shape": A.shape(o.result) if fn.kind != "ctor" else fn.cls,
+                 "probes": {}, "nparams": len([v for v, _ in c.setup if v != "s"])}
         for label, pc in A.probe_calls(api, fn, c, obs):
             if label.startswith("arity"): continue
             pname, kind = label.split("=")
             var = next((v for (v, s), (v2, s2) in zip(pc.setup, c.setup) if s != s2), None)
             if var is None: continue
-            _, res = A.check_probe(api, fn, label, pc, check_state=False)
-            if res != "ok":
-                notes["omitted"].append({"function": key, "parameter": pname, "constructor": kind,
-                                         "implementation": res, "call": pc.code()})
-                continue
+            fs, res = A.check_probe(api, fn, label, pc, check_state=False, shapes=shapes)
             try:
                 t = term.build(fn, c, hole=var)
-            except Exception as ex:
+            except Exception:
                 continue
-            entry["probes"].setdefault((pname, var), {"term": t, "kinds": []})["kinds"].append(KIND[kind])
-        plan.setdefault(fn.mod, []).append(entry)
+            pr = entry["probes"].setdefault((pname, var), {"term": t, "ok": [], "refute": [], "accepted": []})
+            if res == "ok": pr["ok"].append(KIND[kind])
+            elif res == "accepted": pr["accepted"].append(KIND[kind])
+            else:
+                keys = [f["key"] for f in fs if f["key"].startswith(("returns-non-value:", "wrong-exception:"))]
+                pr["refute"].append((KIND[kind], res, keys[0] if keys else "?", pc.code()))
+        cx.plan.setdefault(fn.mod, []).append(entry)
+    return cx
 
-    # ---------------- discovery: which triples does the model reject for all payloads / which shapes hold
-    results, shapes_ok = {}, {}
+
+def pid_of(fn, pname, var):
+    return "%s__%s_%s" % (ident(fn.key), ident(pname), var)
+
+
+def discover(cx):
+    """model side (slow, coqc): which ok-triples the regenerated model rejects for ALL payloads, which
+    refuting triples it also does not reject at the concrete ill-typed value, which sample shapes hold"""
+    bdir, term = cx.bdir, cx.term
+    os.makedirs(os.path.join(bdir, "proofs", "C20"), exist_ok=True)
+    rc, out, _ = run_coq(bdir, _copy(bdir, "C20_defs.v"))
+    assert rc == 0, out
+    disc = {"all": {}, "refuted": {}, "shape": {}}
     jobs = []
-    for mod, entries in plan.items():
+    for mod, entries in cx.plan.items():
         lines = [HEADER % {"mod": mod, "imports": imports_for(mod)}]
         for en in entries:
             fn, fid = en["fn"], ident(en["fn"].key)
             for (pname, var), pr in en["probes"].items():
-                pid = "%s__%s_%s" % (fid, ident(pname), var)
+                pid = pid_of(fn, pname, var)
                 lines.append("Definition c_%s (x : fval) : fval := %s." % (pid, pr["term"]))
-                for k in pr["kinds"]:
+                for k in pr["ok"]:
                     lines.append(('Goal True. first [ timeout 20 (assert (forall i, kind_of i = %s -> rejects (c_%s (ill_val i)) = true) '
                                   'by (intros i H; destruct i; simpl in H; try discriminate H; vm_compute; reflexivity)); idtac "OK %s %s" '
                                   '| timeout 20 (let v := eval vm_compute in (tag_of (c_%s (ill_val %s))) in idtac "NO %s %s" v) '
                                   '| idtac "NO %s %s timeout" ]. exact I. Qed.')
                                  % (k, pid, pid, k, pid, SAMPLE[k], pid, k, pid, k))
+                for k, res, key, code in pr["refute"]:
+                    lines.append(('Goal True. first [ timeout 30 (assert (rejects (c_%s (ill_val %s)) = false) by (vm_compute; reflexivity)); idtac "REF %s %s" '
+                                  '| timeout 30 (let v := eval vm_compute in (tag_of (c_%s (ill_val %s))) in idtac "NOREF %s %s" v) '
+                                  '| idtac "NOREF %s %s timeout" ]. exact I. Qed.')
+                                 % (pid, SAMPLE[k], pid, k, pid, SAMPLE[k], pid, k, pid, k))
             full = term.build(fn, en["base"])
             sh = shp_of(en["shape"])
             lines.append("Definition s_%s : fval := %s." % (fid, full))
@@ -243,42 +265,79 @@ def main():
                 print(out[-3000:]); raise SystemExit(1)
             for ln in out.splitlines():
                 m = re.match(r"^(OK|NO) (\S+) (\S+)(?: (.*))?$", ln)
-                if m: results[(m.group(2), m.group(3))] = (m.group(1), (m.group(4) or "").strip('"'))
+                if m: disc["all"]["%s|%s" % (m.group(2), m.group(3))] = [m.group(1), (m.group(4) or "").strip('"').replace('"%string', "")]
+                m = re.match(r"^(REF|NOREF) (\S+) (\S+)(?: (.*))?$", ln)
+                if m: disc["refuted"]["%s|%s" % (m.group(2), m.group(3))] = [m.group(1), (m.group(4) or "").strip('"').replace('"%string', "")]
                 m = re.match(r"^SHAPE (\S+) (\d)$", ln)
-                if m: shapes_ok[m.group(1)] = int(m.group(2))
+                if m: disc["shape"][m.group(1)] = int(m.group(2))
     for j in jobs:
         for ext in (".v", ".vo", ".vok", ".vos", ".glob"):
             try: os.remove(j[1][:-2] + ext)
             except OSError: pass
+    return disc
 
-    # ---------------- final files
-    files, theorems, counts = ["C20_defs.v"], [], {}
+
+def emit(cx, disc):
+    """text of the lemma files + the coverage table, from the implementation side of the CURRENT tree and
+    the recorded model-side discovery.  Returns (texts {file: text}, meta)"""
+    term = cx.term
+    texts, theorems, counts = {}, [], {}
+    triples = {"proved": [], "refuted": [], "refuted_not_expressible": [], "accepted_proper_value": [],
+               "model_payload_dependent": [], "undiscovered": []}
+    unprobed = {}
     stmts = []
-    for mod in mods:
-        entries = plan.get(mod, [])
+    for mod in cx.mods:
+        entries = cx.plan.get(mod, [])
         lines = [HEADER % {"mod": mod, "imports": imports_for(mod)}]
-        pnames, snames = [], []
+        pnames, rnames, snames = [], [], []
         ntrip = 0
         for en in entries:
             fn, fid = en["fn"], ident(en["fn"].key)
             lines.append("(* ---- %s    sample: %s *)" % (fn.key, en["base"].code().replace("*)", "* )")))
+            nlem = 0
             for (pname, var), pr in en["probes"].items():
-                pid = "%s__%s_%s" % (fid, ident(pname), var)
-                good = [k for k in pr["kinds"] if results.get((pid, k), ("NO", ""))[0] == "OK"]
-                for k in pr["kinds"]:
-                    if k not in good:
-                        notes["omitted"].append({"function": fn.key, "parameter": pname, "constructor": k,
-                                                 "implementation": "ok", "model": results.get((pid, k), ("?", "?"))[1],
-                                                 "why": "the model does not reject this constructor for all payloads (payload-dependent answer)"})
-                if not good: continue
-                ntrip += len(good)
-                lines.append('Definition p_%s : probe := mkProbe "%s:%s" [%s]\n  (fun x => %s).' % (
-                    pid, fn.key, pname, "; ".join(good), pr["term"]))
-                lines.append("Lemma p_%s_ok : probe_ok p_%s. Proof. prove_probe. Qed." % (pid, pid))
-                pnames.append("p_" + pid)
-            if fid in shapes_ok:
+                pid = pid_of(fn, pname, var)
+                good = []
+                for k in pr["ok"]:
+                    d = disc["all"].get("%s|%s" % (pid, k))
+                    t = "%s:%s:%s" % (fn.key, pname, k)
+                    if d is None: triples["undiscovered"].append(t)
+                    elif d[0] == "OK": good.append(k); triples["proved"].append(t)
+                    else: triples["model_payload_dependent"].append(t + " (model: %s)" % d[1])
+                for k in pr["accepted"]:
+                    triples["accepted_proper_value"].append("%s:%s:%s" % (fn.key, pname, k))
+                if good:
+                    ntrip += len(good); nlem += 1
+                    lines.append('Definition p_%s : probe := mkProbe "%s:%s" [%s]\n  (fun x => %s).' % (
+                        pid, fn.key, pname, "; ".join(good), pr["term"]))
+                    lines.append("Lemma p_%s_ok : probe_ok p_%s. Proof. prove_probe. Qed." % (pid, pid))
+                    pnames.append("p_" + pid)
+                refs = []
+                for k, res, key, code in pr["refute"]:
+                    d = disc["refuted"].get("%s|%s" % (pid, k))
+                    t = {"triple": "%s:%s:%s" % (fn.key, pname, k), "implementation": res, "finding_key": key, "call": code}
+                    if d is None: triples["undiscovered"].append(t["triple"])
+                    elif d[0] == "REF": refs.append(k); triples["refuted"].append(t)
+                    else:
+                        t["model"] = d[1]; triples["refuted_not_expressible"].append(t)
+                if refs:
+                    nlem += 1
+                    if not good:
+                        lines.append("Definition c_%s (x : fval) : fval := %s." % (pid, pr["term"]))
+                    callee = "(p_call p_%s)" % pid if good else "c_%s" % pid
+                    for k in refs:
+                        lines.append("(* REFUTES the clause: the ill-typed value is accepted and answered by a non-value (finding %s) *)" % (
+                            next(key for kk, res, key, code in pr["refute"] if kk == k)))
+                        stmt = "rejects (%s (ill_val %s)) = false" % (callee, SAMPLE[k])
+                        lines.append("Lemma r_%s_%s_refuted : %s. Proof. vm_compute. reflexivity. Qed." % (pid, k, stmt))
+                        rnames.append(("r_%s_%s_refuted" % (pid, k), stmt))
+            if nlem == 0:
+                unprobed[fn.key] = ("no parameter besides the receiver" if en["nparams"] == 0 else
+                                    "every ill-typed constructor is either documented as accepted, answered by a proper value, or not decidable in the model"
+                                    if en["probes"] else "every constructor is documented as accepted for every parameter")
+            if fid in disc["shape"]:
                 sh = shp_of(en["shape"])
-                if shapes_ok[fid] == 1: sh = "(STuple [SAny; %s])" % sh
+                if disc["shape"][fid] == 1: sh = "(STuple [SAny; %s])" % sh
                 lines.append('Definition s_%s : shape_case := ("%s"%%string, %s, %s).' % (fid, fn.key, sh, term.build(fn, en["base"])))
                 snames.append("s_" + fid)
         lines.append("")
@@ -287,35 +346,61 @@ def main():
         for pn in reversed(pnames):
             proof = "(Forall_cons _ %s_ok %s)" % (pn, proof)
         lines.append("Lemma types_%s : Forall probe_ok probes_%s.\nProof. exact %s. Qed." % (mod, mod, proof))
-        lines.append("Definition shape_cases_%s : list shape_case := [%s]." % (mod, "; ".join(snames)))
-        lines.append("Lemma shapes_%s : forallb shape_ok shape_cases_%s = true.\nProof. vm_compute. reflexivity. Qed." % (mod, mod))
-        open(os.path.join(PDIR, "C20_types_%s.v" % mod), "w").write("\n".join(lines) + "\n")
-        files.append("C20_types_%s.v" % mod)
-        counts[mod] = {"functions": len(entries), "probes": len(pnames), "triples": ntrip, "shape_cases": len(snames)}
-        stmts.append((mod, len(pnames), len(snames)))
-        theorems += ["C20_types_%s" % mod, "C20_shapes_%s" % mod]
+        theorems.append("C20_types_%s" % mod)
+        if snames:
+            lines.append("Definition shape_cases_%s : list shape_case := [%s]." % (mod, "; ".join(snames)))
+            lines.append("Lemma shapes_%s : forallb shape_ok shape_cases_%s = true.\nProof. vm_compute. reflexivity. Qed." % (mod, mod))
+            theorems.append("C20_shapes_%s" % mod)
+        texts["C20_types_%s.v" % mod] = "\n".join(lines) + "\n"
+        counts[mod] = {"functions": len(entries), "probes": len(pnames), "triples": ntrip, "shape_cases": len(snames),
+                       "refuted_lemmas": len(rnames)}
+        stmts.append((mod, pnames, snames, rnames))
 
     main_lines = ["""(* Property C20 -- statements only (GENERATED by vlib/c20_gen.py; proofs are in C20_types_<module>.v).
-   For every probe (function, parameter, documented sample of the other arguments) of a module and every
-   ill-typed value i (None, any string, any list, any tuple, complex, any object tagged Angle / Epoch)
-   whose kind the probe lists, the binary64 model regenerated from /repo answers TypeError or ValueError;
-   documented libm-free samples return values of the recorded shape (tuple arity, finite floats, class). *)
+   C20_types_<M>: for every probe of the module (a function, one of its parameters, the other arguments fixed
+   to one documented sample) and every ill-typed value i (None, any string, any list, any tuple, complex, any
+   object tagged Angle / Epoch) whose kind the probe LISTS, the binary64 model regenerated from /repo answers
+   TypeError or ValueError.  The lists are not "every constructor": constructors the implementation answers
+   with a proper value (duck typing) or whose answer the model cannot decide for all payloads are not listed
+   (counts in the evidence); constructors answered by a silent NON-value refute the clause:
+   C20_refuted_<M> states those witnesses (known findings returns-non-value:<fn>:<param>:<kind>).
+   C20_shapes_<M>: the listed documented libm-free sample calls return the shape the implementation returned
+   when the list was generated (a regression statement about the model, not a general shape theorem). *)
 From Coq Require Import ZArith List Bool String PrimFloat.
 From PyLib Require Import PyVal PyBuiltins B64.
 From Proofs.C20 Require Import C20_defs %s.
 Import ListNotations.
-""" % " ".join("C20_types_%s" % m for m in mods)]
-    for mod, np_, ns_ in stmts:
+""" % " ".join("C20_types_%s" % m for m in cx.mods)]
+    for mod, pnames, snames, rnames in stmts:
         main_lines.append("Theorem C20_types_%s : forall p i, In p probes_%s -> kind_in i (p_kinds p) = true ->\n"
                           "  rejects (p_call p (ill_val i)) = true.\nProof. exact (probes_forall _ types_%s). Qed." % (mod, mod, mod))
-        main_lines.append("Theorem C20_shapes_%s : forall c, In c shape_cases_%s -> has_shape (snd (fst c)) (snd c) = true.\n"
-                          "Proof. intros c H. exact (proj1 (forallb_forall _ _) shapes_%s c H). Qed.\n" % (mod, mod, mod))
+        if snames:
+            main_lines.append("Theorem C20_shapes_%s : forall c, In c shape_cases_%s -> has_shape (snd (fst c)) (snd c) = true.\n"
+                              "Proof. intros c H. exact (proj1 (forallb_forall _ _) shapes_%s c H). Qed." % (mod, mod, mod))
+        if rnames:
+            main_lines.append("Theorem C20_refuted_%s :\n  %s.\nProof. exact %s. Qed." % (
+                mod, " /\\\n  ".join(st for _, st in rnames), _conj([rn for rn, _ in rnames])))
+            theorems.append("C20_refuted_%s" % mod)
+        main_lines.append("")
     for th in theorems:
         main_lines.append('Redirect "%s.assumptions" Print Assumptions %s.' % (th, th))
-    open(os.path.join(PDIR, "C20.v"), "w").write("\n".join(main_lines) + "\n")
-    files.append("C20.v")
+    texts["C20.v"] = "\n".join(main_lines) + "\n"
+    order = [t for m in cx.mods for t in ("C20_types_%s" % m, "C20_shapes_%s" % m, "C20_refuted_%s" % m) if t in theorems]
+    meta = {"required": sorted(set(cx.required)), "theorems": order,
+            "files": ["C20_defs.v"] + ["C20_types_%s.v" % m for m in cx.mods] + ["C20.v"],
+            "counts": counts, "no_model": cx.no_model, "no_base": cx.no_base, "triples": triples, "unprobed": unprobed}
+    return texts, meta
 
-    # recorded shapes for the dynamic part (all 19 modules)
+
+def _conj(names):
+    if len(names) == 1: return names[0]
+    return "(conj %s %s)" % (names[0], _conj(names[1:]))
+
+
+def main():
+    t0 = time.time()
+    pd = os.path.join(VERIF, "vlib", "props")
+    # recorded shapes for the dynamic part (all 19 modules) first: the non-value rule uses them
     api2 = A.Api()
     recs2 = A.harvest(api2) + A.explicit_calls(api2)
     learn, rng = {}, random.Random(0)
@@ -325,16 +410,44 @@ Import ListNotations.
         if A.is_free(fn):
             for _ in range(3):
                 A.check_in_domain(api2, fn, A.redraw(fn, c, rng), None, None, learn)
-    pd = os.path.join(VERIF, "vlib", "props")
     json.dump({k: sorted(v) for k, v in sorted(learn.items())}, open(os.path.join(pd, "C20_shapes.json"), "w"), indent=0, sort_keys=True)
-    g0 = {"required": sorted(set(required)), "theorems": theorems, "files": files, "counts": counts,
-          "no_model": notes["no_model"], "no_base": notes["no_base"], "omitted": notes["omitted"],
-          "corr_exclude": json.load(open(os.path.join(pd, "C20_generated.json"))).get("corr_exclude", [])
-          if os.path.exists(os.path.join(pd, "C20_generated.json")) else []}
-    json.dump(g0, open(os.path.join(pd, "C20_generated.json"), "w"), indent=1, sort_keys=True)
-    tot = {k: sum(c[k] for c in counts.values()) for k in ("functions", "probes", "triples", "shape_cases")}
-    print("generated:", tot, "omitted triples:", len(notes["omitted"]), "no model:", notes["no_model"], "no base:", notes["no_base"])
+    cx = build()
+    disc = discover(cx)
+    texts, meta = emit(cx, disc)
+    for f, t in texts.items():
+        open(os.path.join(PDIR, f), "w").write(t)
+    old = json.load(open(os.path.join(pd, "C20_generated.json"))) if os.path.exists(os.path.join(pd, "C20_generated.json")) else {}
+    meta["discovery"] = disc
+    meta["corr_exclude"] = old.get("corr_exclude", [])
+    json.dump(meta, open(os.path.join(pd, "C20_generated.json"), "w"), indent=1, sort_keys=True)
+    tot = {k: sum(c[k] for c in meta["counts"].values()) for k in ("functions", "probes", "triples", "shape_cases", "refuted_lemmas")}
+    print("generated:", tot, {k: len(v) for k, v in meta["triples"].items()}, "unprobed:", len(meta["unprobed"]),
+          "no model:", cx.no_model, "no base:", cx.no_base)
     print("%.0fs" % (time.time() - t0))
+
+
+def verify():
+    """run on EVERY check (C20.search): the lemma files are re-derived from the CURRENT /repo (implementation
+    side recomputed, model-side discovery table as recorded) and compared with the committed files.
+    Returns list of (file or triple, what)"""
+    pd = os.path.join(VERIF, "vlib", "props")
+    g = json.load(open(os.path.join(pd, "C20_generated.json")))
+    cx = build()
+    texts, meta = emit(cx, g.get("discovery", {"all": {}, "refuted": {}, "shape": {}}))
+    diffs = []
+    for f, t in sorted(texts.items()):
+        p = os.path.join(PDIR, f)
+        cur = open(p).read() if os.path.exists(p) else ""
+        if cur != t:
+            import difflib
+            d = [l for l in difflib.unified_diff(cur.splitlines(), t.splitlines(), lineterm="", n=0) if l[:1] in "+-" and l[:3] not in ("+++", "---")]
+            diffs.append((f, "%d line(s) differ, first: %s" % (len(d), (d[0] if d else "")[:200])))
+    und = {}
+    for t in meta["triples"]["undiscovered"]:
+        und.setdefault(t.split(":")[0], []).append(t.split(":", 1)[1])
+    for f, ts in sorted(und.items()):
+        diffs.append((f, "%d (parameter, constructor) triple(s) of the current tree that the committed lemma files do not know: %s" % (len(ts), ", ".join(ts[:8]))))
+    return diffs, meta
 
 
 def _copy(bdir, name):
@@ -369,4 +482,7 @@ def vet_cases():
 
 if __name__ == "__main__":
     if sys.argv[1:] == ["vet"]: vet_cases()
+    elif sys.argv[1:] == ["verify"]:
+        d, m = verify()
+        print(len(d), d[:10])
     else: main()
